@@ -105,3 +105,37 @@ def test_c15_negative_zero_sfloatvar_keeps_its_octets():
     value, end = MBXML.read_sfloatvar(b"\x40\x00", 0)
     assert end == 2
     assert MBXML.write_sfloatvar(value, 1) == b"\x40\x00"
+
+
+def _run_optimised(code):
+    import subprocess, sys, os
+
+    env = dict(os.environ, PYTHONPATH=os.environ.get("VERIF_REPO", "/repo"))
+    return subprocess.run([sys.executable, "-O", "-B", "-c", code], capture_output=True, text=True, env=env)
+
+
+def test_c10_impossible_point_is_refused_under_python_O():
+    r = _run_optimised(
+        "from okdmr.dmrlib.etsi.fec.trellis import Trellis34 as T\n"
+        "from bitarray import bitarray\n"
+        "pts = T.tribits_to_points(T.bits_to_tribits(bitarray('0' * 144)))\n"
+        "pts[0] = 1  # state 0 emits even points only\n"
+        "try:\n"
+        "    T.points_to_tribits(pts)\n"
+        "    print('DECODED')\n"
+        "except AssertionError:\n"
+        "    print('REFUSED')\n"
+    )
+    assert r.stdout.strip() == "REFUSED", r.stdout + r.stderr
+
+
+def test_c17_garbage_is_not_taken_for_hstrp_under_python_O():
+    r = _run_optimised(
+        "from okdmr.dmrlib.hytera.pdu.hstrp import HSTRP\n"
+        "try:\n"
+        "    HSTRP.from_bytes(bytes.fromhex('334200040000'))\n"
+        "    print('PARSED')\n"
+        "except AssertionError:\n"
+        "    print('REFUSED')\n"
+    )
+    assert r.stdout.strip() == "REFUSED", r.stdout + r.stderr
